@@ -118,7 +118,7 @@ def argOk (d : Dir) (v : Arg) : Bool :=
   | _, _ => false
 
 def Item.wf : Item → Bool
-  | .lit bs => bs.all fun c => c != 0 && c != 0x25 && c != QB_XC.toUInt8
+  | .lit bs => bs.all fun c => c != 0 && c != 0x25
   | .pct => true
   | .dir d w p v =>
     d.pre.all isCopyChar &&
@@ -127,13 +127,24 @@ def Item.wf : Item → Bool
      | _ => true) &&
     argOk d v && (!d.wstar || int32 w) && (d.prec != .star || int32 p)
 
-/-- a printf format (from the conversion grammar) with arguments of the types it reads -/
+/-- a printf format (from the conversion grammar) with arguments of the types it reads; literal text
+    is any bytes except NUL and '%' (the extended-information marker QB_XC included) -/
 def WellTyped (items : List Item) : Prop := ∀ i ∈ items, i.wf = true
+
+/-- the format does not contain the extended-information marker -/
+def NoMarker (items : List Item) : Prop := QB_XC.toUInt8 ∉ fmtOf items
+
+/-- room a conversion needs in the decoder's mini format: its characters with the `*` values written
+    out; one more for a negative `.*` precision directly in front of the conversion character
+    (the decoder stores the '.' before it reads the value and removes it again, and its room check
+    `fmt_pos > MINI_FORMAT_STR_LEN - 3` runs in between) -/
+def Dir.miniNeed (d : Dir) (w p : Int) : Nat :=
+  (d.mini w p).length + (if d.prec = .star ∧ p < 0 ∧ d.mod = .none then 1 else 0)
 
 /-- every conversion, with its `*` values written out, fits the decoder's mini format
     (`MINI_FORMAT_STR_LEN - 2` characters; class predicate of the known finding KF-C14-mini-format) -/
 def MiniFits (items : List Item) : Prop :=
-  ∀ i ∈ items, ∀ d w p v, i = .dir d w p v → (d.mini w p).length + 2 ≤ MINI_FORMAT_STR_LEN
+  ∀ i ∈ items, ∀ d w p v, i = .dir d w p v → d.miniNeed w p + 2 ≤ MINI_FORMAT_STR_LEN
 
 instance (items : List Item) : Decidable (WellTyped items) := by unfold WellTyped; infer_instance
 
